@@ -120,6 +120,143 @@ BASES = ["Base", "object", "Ctx", "Exception", "dict", "list", "int", "str", "tu
 CLASS_KEYWORDS = ["metaclass=Meta", "metaclass=abc.ABCMeta", "metaclass=type", "total=False"]
 
 
+# statements; "{v}" = a local name, "\n" is followed by the current indentation when instantiated
+ILL_STMTS = [
+    "{v}, {v} = 1", "{v}, {v} = 1, 2, 3", "[{v}, *{v}] = None", "for {v} in 1: pass", "for {v}, {v} in [1]: pass",
+    "with 1: pass", "with 1 as x, 2 as y: pass", "{v}: int = 'a'", "{v}: str = 1; {v}.nope", "1 .real = 2", "g2.nope = 1", "Base.attr = 'a'",
+    "Base().attr = 'a'", "None.x = 1", "(1)[0] = 1", "'a'[0] = 'b'", "(1, 2)[0] = 3", "del undef1", "del {v}, {v}", "del g2[0][1]", "del (1)[0]",
+    "{v} += undef1", "{v} = {v} = undef1", "undef1 += 1", "undef1.x += 1", "undef1[0] += 1", "g2[0] @= 1", "g2['a'] += 1", "Base.attr += 'a'",
+    "self.nope += 1", "raise 1", "raise ValueError from 1", "assert 1, undef1", "return_ = later_fn(1)(2)(3)", "x = await_ = 1", "async_ = 1",
+    "print(later_fn.__wrapped__.nope)", "later_fn.attr = 1", "later_fn()()", "Later.inner.nope.more", "Later().nope()", "Later(1, 2, 3)",
+    "Later.nope = 1", "x = Later[int]", "x: Later = Later()", "x: 'Later' = 1", "x: Final = 1; x = 2", "x: ClassVar[int] = 1",
+    "x: Final[int]", "x: int; x.nope", "x: 'undef1' = 1", "x: 'tuple[int, *tuple[str, ...]]' = (1,)", "x: tuple[int, *tuple[str, ...]] = (1, 'a')",
+    "x: Annotated[int, undef1] = 1", "x: Literal[undef1] = 1", "x: Callable[..., undef1] = print", "x: Optional = None", "x: Optional[()] = None",
+    "try:\n    pass\nexcept 1:\n    pass", "try:\n    pass\nexcept* undef1 as e:\n    e.nope",
+    "match 1:\n    case int(1, 2):\n        pass", "match 1:\n    case str():\n        pass",
+    "match undef1:\n    case undef1.x:\n        pass", "match g1:\n    case Base(1):\n        pass",
+    "match g1:\n    case Base.attr:\n        pass", "match g1:\n    case os.sep | Color.RED:\n        pass",
+    "match g1:\n    case {'a': 1, **rest}:\n        rest.nope", "match g1:\n    case [1, *rest, 2] as whole:\n        rest.nope; whole.nope",
+    "match g1:\n    case 1 | 'a' | None | Color.RED:\n        pass", "match g1, g2:\n    case (1, [*_]):\n        pass",
+    "match g1:\n    case later_fn():\n        pass", "match g1:\n    case g1():\n        pass",
+    "match g1:\n    case {os.sep: 1}:\n        pass", "match g1:\n    case Later(inner=Later(v=1)):\n        pass",
+    "class L1(Base(), nope=1): pass", "class L2(TypedDict, total=False): pass", "class L3(metaclass=Meta): pass", "class L4(undef1, metaclass=undef2): pass",
+    "class L5(*g2, **g1): pass", "if p: pass", "while not p: break", "x = p and q or r", "x = 1 if p else 2", "assert p", "x = [i for i in g2 if p]",
+    "os.path.join(*g2, 10**30, 'k')", "print(*g2, *g2, sep=1, **g1)", "later_fn(*g2, **g1)", "later_fn(*(1, 2), y=1)", "functools.partial(later_fn, *g2)()",
+]
+
+ILL_EXPRS = [
+    "([] @ {})",
+    "len()",
+    "later_fn(1, 2, 3, 4, 5, 6, 7)",
+    "later_fn(nope=1)",
+    "Base().meth(1, 2, 3)",
+    "Base.meth()",
+    "Base(1, 2)",
+    "os.nope",
+    "Color.GREEN",
+    "'%d' % 'a'",
+    "'%s %s' % (1,)",
+    "'{} {}'.format(1)",
+    "{[]: 1}",
+    "{1: 'a', 1: 'b'}",
+    "(1 < 'a')",
+    "(1 in 2)",
+    "(-'a')",
+    "(~1.5)",
+    "int('a', 'b', 'c')",
+    "isinstance(1)",
+    "isinstance(1, 2)",
+    "isinstance(1, (int, 'str'))",
+    "super().nope",
+    "[*1]",
+    "{**1}",
+    "print(*1)",
+    "print(**1)",
+    "dict(**{1: 2})",
+    "(lambda x: x)()",
+    "(lambda: 0)(1)",
+    "(1).real()",
+    "'a'.upper(1)",
+    "[].append()",
+    "{}.get()",
+    "(1, 2)[5]",
+    "(1, 2)['a']",
+    "()[1:'a']",
+    "[1][None]",
+    "{'a': 1}['b']",
+    "'abc'[1.5]",
+    "b'abc'['a']",
+    "range(1)[1, 2]",
+    "Ctx()[0]",
+    "Base.attr.nope",
+    "type(1)(2)(3)",
+    "getattr(1)",
+    "getattr(1, 2)",
+    "typing.cast(1)",
+    "typing.cast('undef1', 1)",
+    "typing.cast('tuple[int, *tuple[str, ...]]', 1)",
+    "typing.assert_type(1, 'list[int')",
+    "typing.assert_type(1, undef1)",
+    "functools.partial(later_fn, 1, 2, 3, nope=4)",
+    "functools.partial(1)",
+    "NewType('N', 1)",
+    "TypeVar('T', int)",
+    "TypeVar(1)",
+    "typing.NamedTuple('N', [('a', 1)])",
+    "typing.NamedTuple('N', a=int)",
+    "TypedDict('TD', {1: int})",
+    "TypedDict('TD', {'a': 1})",
+    "enum.Enum('E', 1)",
+    "Optional[1]",
+    "Union[1, 2]",
+    "list[1][2]",
+    "Callable[1]",
+    "Literal[int][0]",
+    "Annotated[int]",
+    "Generic[1]",
+    "tuple[int, ...][0]",
+    "type[int][int]",
+    "(1 if undef1 else 2)()",
+    "sorted(1, key=2)",
+    "max()",
+    "zip(1, 2)",
+    "sum('a', 'b')",
+    "open(1, 2, 3)",
+    "str(1, 2, 3, 4)",
+    "dict(1)",
+    "dict([1])",
+    "dict(a=1, **{'a': 2})",
+    "Color(3)",
+    "Color['NOPE']",
+    "Color.RED.value.nope",
+    "Color.RED()",
+    "Meta('X', (), {}, 1)",
+    "type('X', 1, 2)",
+    "object().x",
+    "object.__new__()",
+    "NotImplemented()",
+    "...()",
+    "...[0]",
+    "(1)(2)(3)",
+    "1 .real.imag.nope",
+    "divmod(1, 'a')",
+    "abs('a')",
+    "hash([])",
+    "iter(1)",
+    "next(1)",
+    "reversed(1)",
+    "len(1)",
+    "(1 @ 2)",
+    "(1 << 'a')",
+    "('a' ** 2)",
+    "(None < None)",
+    "(not undef1)",
+    "(1 is 1)",
+    "('a' is 'a')",
+    "([] == [] == {})",
+]
+
+
 class Fuzz:
     def __init__(self, rng: random.Random, budget: int):
         self.rng = rng
@@ -467,6 +604,8 @@ class Fuzz:
     def e_illtyped(self, d):
         self.f("ill:expression")
         a = self.atom
+        if self.chance(0.75):
+            return self.pick(ILL_EXPRS)
         forms = [
             lambda: f"{self.pick(INT_LITS)}({self.call_args(d)})",
             lambda: f"{self.pick(INT_LITS)}[{self.expr(d)}]",
@@ -475,119 +614,9 @@ class Fuzz:
             lambda: f"None[{a()}]",
             lambda: f"('a' + {self.pick(INT_LITS)})",
             lambda: f"({self.pick(INT_LITS)} + None)",
-            lambda: f"([] @ {{}})",
-            lambda: "len()",
             lambda: f"len({a()}, {a()})",
-            lambda: "later_fn(1, 2, 3, 4, 5, 6, 7)",
-            lambda: "later_fn(nope=1)",
-            lambda: "Base().meth(1, 2, 3)",
-            lambda: "Base.meth()",
-            lambda: "Base(1, 2)",
             lambda: f"{self.pick(UNDEFINED)}.{self.pick(ATTRS)}",
             lambda: f"{self.pick(UNDEFINED)}({a()})",
-            lambda: "os.nope",
-            lambda: "Color.GREEN",
-            lambda: "'%d' % 'a'",
-            lambda: "'%s %s' % (1,)",
-            lambda: "'{} {}'.format(1)",
-            lambda: "{[]: 1}",
-            lambda: "{1: 'a', 1: 'b'}",
-            lambda: "(1 < 'a')",
-            lambda: "(1 in 2)",
-            lambda: "(-'a')",
-            lambda: "(~1.5)",
-            lambda: "int('a', 'b', 'c')",
-            lambda: "isinstance(1)",
-            lambda: "isinstance(1, 2)",
-            lambda: "isinstance(1, (int, 'str'))",
-            lambda: "super().nope",
-            lambda: "[*1]",
-            lambda: "{**1}",
-            lambda: "print(*1)",
-            lambda: "print(**1)",
-            lambda: "dict(**{1: 2})",
-            lambda: "(lambda x: x)()",
-            lambda: "(lambda: 0)(1)",
-            lambda: "(1).real()",
-            lambda: "'a'.upper(1)",
-            lambda: "[].append()",
-            lambda: "{}.get()",
-            lambda: "(1, 2)[5]",
-            lambda: "(1, 2)['a']",
-            lambda: "()[1:'a']",
-            lambda: "[1][None]",
-            lambda: "{'a': 1}['b']",
-            lambda: "'abc'[1.5]",
-            lambda: "b'abc'['a']",
-            lambda: "range(1)[1, 2]",
-            lambda: "Ctx()[0]",
-            lambda: "Base.attr.nope",
-            lambda: "type(1)(2)(3)",
-            lambda: "getattr(1)",
-            lambda: "getattr(1, 2)",
-            lambda: "typing.cast(1)",
-            lambda: "typing.cast('undef1', 1)",
-            lambda: "typing.cast('tuple[int, *tuple[str, ...]]', 1)",
-            lambda: "typing.assert_type(1, 'list[int')",
-            lambda: "typing.assert_type(1, undef1)",
-            lambda: "functools.partial(later_fn, 1, 2, 3, nope=4)",
-            lambda: "functools.partial(1)",
-            lambda: "NewType('N', 1)",
-            lambda: "TypeVar('T', int)",
-            lambda: "TypeVar(1)",
-            lambda: "typing.NamedTuple('N', [('a', 1)])",
-            lambda: "typing.NamedTuple('N', a=int)",
-            lambda: "TypedDict('TD', {1: int})",
-            lambda: "TypedDict('TD', {'a': 1})",
-            lambda: "enum.Enum('E', 1)",
-            lambda: "Optional[1]",
-            lambda: "Union[1, 2]",
-            lambda: "list[1][2]",
-            lambda: "Callable[1]",
-            lambda: "Literal[int][0]",
-            lambda: "Annotated[int]",
-            lambda: "Generic[1]",
-            lambda: "tuple[int, ...][0]",
-            lambda: "type[int][int]",
-            lambda: "(1 if undef1 else 2)()",
-            lambda: "(yield_ := 1)()" if not (self.in_comp_iter or self.in_class_body) else "1()",
-            lambda: "sorted(1, key=2)",
-            lambda: "max()",
-            lambda: "zip(1, 2)",
-            lambda: "sum('a', 'b')",
-            lambda: "open(1, 2, 3)",
-            lambda: "str(1, 2, 3, 4)",
-            lambda: "dict(1)",
-            lambda: "dict([1])",
-            lambda: "dict(a=1, **{'a': 2})",
-            lambda: "Color(3)",
-            lambda: "Color['NOPE']",
-            lambda: "Color.RED.value.nope",
-            lambda: "Color.RED()",
-            lambda: "Meta('X', (), {}, 1)",
-            lambda: "type('X', 1, 2)",
-            lambda: "object().x",
-            lambda: "object.__new__()",
-            lambda: "NotImplemented()",
-            lambda: "...()",
-            lambda: "...[0]",
-            lambda: "(1)(2)(3)",
-            lambda: "1 .real.imag.nope",
-            lambda: "divmod(1, 'a')",
-            lambda: "abs('a')",
-            lambda: "hash([])",
-            lambda: "iter(1)",
-            lambda: "next(1)",
-            lambda: "reversed(1)",
-            lambda: "len(1)",
-            lambda: "(1 @ 2)",
-            lambda: "(1 << 'a')",
-            lambda: "('a' ** 2)",
-            lambda: "(None < None)",
-            lambda: "(not undef1)",
-            lambda: "(1 is 1)",
-            lambda: "('a' is 'a')",
-            lambda: "([] == [] == {})",
         ]
         return self.pick(forms)()
 
@@ -981,24 +1010,7 @@ class Fuzz:
 
     def s_illtyped(self, ind):
         self.f("ill:statement")
-        v = self.pick(self.names[:6])
-        return [ind + self.pick([
-            f"{v}, {v} = 1", f"{v}, {v} = 1, 2, 3", f"[{v}, *{v}] = None", f"for {v} in 1: pass", f"for {v}, {v} in [1]: pass",
-            "with 1: pass", "with 1 as x, 2 as y: pass", f"{v}: int = 'a'", f"{v}: str = 1; {v}.nope", "1 .real = 2", "g2.nope = 1", "Base.attr = 'a'",
-            "Base().attr = 'a'", "None.x = 1", "(1)[0] = 1", "'a'[0] = 'b'", "(1, 2)[0] = 3", "del undef1", f"del {v}, {v}", "del g2[0][1]", "del (1)[0]",
-            f"{v} += undef1", f"{v} = {v} = undef1", "undef1 += 1", "undef1.x += 1", "undef1[0] += 1", "g2[0] @= 1", "g2['a'] += 1", "Base.attr += 'a'",
-            "self.nope += 1", "raise 1", "raise ValueError from 1", "assert 1, undef1", "return_ = later_fn(1)(2)(3)", "x = await_ = 1", "async_ = 1",
-            "print(later_fn.__wrapped__.nope)", "later_fn.attr = 1", "later_fn()()", "Later.inner.nope.more", "Later().nope()", "Later(1, 2, 3)",
-            "Later.nope = 1", "x = Later[int]", "x: Later = Later()", "x: 'Later' = 1", "x: Final = 1; x = 2", "x: ClassVar[int] = 1",
-            "x: Final[int]", "x: int; x.nope", "x: 'undef1' = 1", "x: 'tuple[int, *tuple[str, ...]]' = (1,)", "x: tuple[int, *tuple[str, ...]] = (1, 'a')",
-            "x: Annotated[int, undef1] = 1", "x: Literal[undef1] = 1", "x: Callable[..., undef1] = print", "x: Optional = None", "x: Optional[()] = None",
-            "try:\n" + ind + "    pass\n" + ind + "except 1:\n" + ind + "    pass", "try:\n" + ind + "    pass\n" + ind + "except* undef1 as e:\n" + ind + "    e.nope",
-            "match 1:\n" + ind + "    case int(1, 2):\n" + ind + "        pass", "match 1:\n" + ind + "    case str():\n" + ind + "        pass",
-            "match undef1:\n" + ind + "    case undef1.x:\n" + ind + "        pass", "match g1:\n" + ind + "    case Base(1):\n" + ind + "        pass",
-            "match g1:\n" + ind + "    case {'a': 1, **rest}:\n" + ind + "        rest.nope", "match g1:\n" + ind + "    case [1, *rest, 2] as whole:\n" + ind + "        rest.nope; whole.nope",
-            "match g1:\n" + ind + "    case 1 | 'a' | None | Color.RED:\n" + ind + "        pass", "match g1, g2:\n" + ind + "    case (1, [*_]):\n" + ind + "        pass",
-            "match g1:\n" + ind + "    case later_fn():\n" + ind + "        pass", "match g1:\n" + ind + "    case g1():\n" + ind + "        pass",
-        ])]
+        return [ind + self.pick(ILL_STMTS).replace("\n", "\n" + ind).replace("{v}", self.pick(self.names[:6]))]
 
     # ------------------------------------------------------------------ functions
     def params(self, method: str = "", lazy: bool = False) -> str:
@@ -1381,3 +1393,138 @@ def gen_program(rng: random.Random, budget=None):
             continue
         return src, sorted(fz.feats), rejected
     return None, [], rejected
+
+
+# ---------------------------------------------------------------------------
+# deterministic vocabulary sweeps: every vocabulary item in a fixed set of standard contexts.  They make the set of
+# crash sites a run reports independent of the seed (the random derivations then only add combinations).
+
+USES = [
+    "if x: pass", "while not x: break", "y = x and 1", "y = 1 if x else 2", "assert x", "y = [i for i in g2 if x]", "y = x()", "y = x(1, k=2)", "y = x[0]",
+    "y = x[1:2]", "y = x.attr", "x.attr = 1", "x[0] = 1", "del x[0]", "y = x + 1", "y = 1 + x", "x += 1", "y = -x", "y = x < 1", "y = x == 1", "y = x is None",
+    "y = 1 in x", "for i in x: pass", "y = [*x]", "y = {**x}", "print(*x)", "print(**x)", "y = len(x)", "y = isinstance(x, int)", "y = isinstance(1, x)",
+    "y = f'{x}'", "y = f'{x!r:>{x}}'", "y = '%s' % x", "y = '%d' % x", "y = '{}'.format(x)", "a, b = x", "a, *b = x", "with x: pass", "with x as c: pass",
+    "match x:\n    case int(): pass\n    case [a, *b]: pass\n    case {'k': v}: pass\n    case Base(attr=1): pass\n    case None: pass\n    case _: pass",
+    "y = str(x)", "y = hash(x)", "y = bool(x)", "y = iter(x)", "y = next(x)", "y = x if isinstance(x, int) else None", "y = x or None", "raise x",
+    "y = lambda: x", "y = (x, x)", "y = {x: x}", "y = {x}", "y = [x]", "y = x @ x", "y = x ** 2", "y = x // x", "y = ~x", "y = not x", "y = x.__class__",
+    "y = type(x)", "y = getattr(x, 'attr')", "y = getattr(x, 'attr', None)", "y = hasattr(x, 'attr')", "y = callable(x)", "y = x.__dict__", "return x",
+    "y = typing.cast(int, x)", "y = typing.cast(x, 1)", "y = sorted(x)", "y = dict(x)", "y = list(x)", "y = tuple(x)", "y = set(x)", "y = x.items()",
+    "y = super(x)", "y = issubclass(x, int)", "y = issubclass(int, x)", "y = x == x", "y = x != None", "try:\n    pass\nexcept x:\n    pass",
+    "y = later_fn(x)", "y = later_fn(*x)", "y = later_fn(**x)", "y = later_fn(y=x)", "y = Later(x)", "y = functools.partial(x, 1)", "y = functools.partial(later_fn, x)",
+]
+ASYNC_USES = ["y = await x", "async for i in x: pass", "async with x as c: pass", "y = [i async for i in x]", "y = await asyncio.gather(x, x)"]
+GEN_USES = ["yield x", "y = yield x", "yield from x", "y = yield from x"]
+
+
+def _indent(text: str, ind: str) -> str:
+    return "\n".join(ind + l for l in text.split("\n"))
+
+
+def _compiles(src: str) -> bool:
+    try:
+        with warnings.catch_warnings():
+            warnings.simplefilter("ignore")
+            compile(src, "<sweep>", "exec", dont_inherit=True)
+        return True
+    except Exception:  # noqa: BLE001
+        return False
+
+
+def _is_expr(text: str) -> bool:
+    try:
+        compile(text, "<e>", "eval", dont_inherit=True)
+        return True
+    except Exception:  # noqa: BLE001
+        return False
+
+
+def _assemble(future: bool, defs: list) -> str:
+    """defs that do not compile on their own (with the header) are dropped one by one"""
+    head = ("from __future__ import annotations\n" if future else "") + HEADER
+    good = [d for d in defs if _compiles(head + d + "\n" + TAIL)]
+    return head + "\n".join(good) + "\n" + TAIL
+
+
+def sweep_programs(mine=None) -> list:
+    """-> [(sweep name, source)] ; deterministic.  mine(index) -> bool selects the modules to build (all when None)."""
+    out = []
+    counter = [0]
+
+    def emit(name, future, defs=None, src=None):
+        i = counter[0]
+        counter[0] += 1
+        if mine is not None and not mine(i):
+            return
+        if src is None:
+            src = _assemble(future, defs() if callable(defs) else defs)
+        elif not _compiles(src):
+            return
+        out.append((name, src))
+
+    anns = list(dict.fromkeys(SAFE_ANN + LAZY_ANN))
+    # (1) every annotation in every annotation position of a function / class / alias / cast (never evaluated: future import)
+    def annotation_defs(chunk):
+        defs = []
+        for j, a in enumerate(chunk):
+            defs += [
+                f"def p{j}(x: {a}, /, y: {a} = g1, *, z: {a}): pass", f"def r{j}() -> {a}: pass", f"async def ar{j}() -> {a}: pass",
+                f"def l{j}():\n    v: {a}\n    w: {a} = g1\n    return w", f"def s{j}(*args: {a}, **kwargs: {a}): pass",
+                f"def c{j}():\n    return typing.cast({a}, g1)", f"def at{j}():\n    return typing.assert_type(g1, {a})", f"def t{j}():\n    type A = {a}\n    return A",
+                f"def tp{j}[V: {a}](x: V) -> V: return x", f"class K{j}:\n    f: {a}\n    g: {a} = g1\n    def m(self, x: {a}) -> {a}: ...",
+                f"@dataclass\nclass D{j}:\n    f: {a}", f"class TD{j}(TypedDict):\n    f: {a}", f"class NT{j}(NamedTuple):\n    f: {a}",
+                f"def lam{j}():\n    return lambda x=1: typing.cast({a}, x)", f"def sa{j}(self):\n    self.x: {a} = g1",
+            ]
+            if _is_expr(a) and not a.startswith(("'", '"')):
+                defs += [f"def q{j}(x: {a!r}) -> {a!r}: pass", f"def cq{j}():\n    return typing.cast({a!r}, g1)", f"def lq{j}():\n    v: {a!r} = g1",
+                         f"def oq{j}(x: Optional[{a!r}], y: list[{a!r}]): pass"]
+        return defs
+
+    for i in range(0, len(anns), 10):
+        emit("annotation-positions", True, lambda chunk=anns[i: i + 10]: annotation_defs(chunk))
+    # (2) module level and class level annotated assignment: an exception escaping there aborts the whole module -> one module each
+    for a in anns:
+        emit("annotation-module-level", True, src="from __future__ import annotations\n" + HEADER + f"v0: {a} = g1\n" + TAIL)
+    # (3) a parameter of every (importable) annotation used in every way
+    def use_defs(a):
+        defs = []
+        for k, u in enumerate(USES):
+            defs.append(f"def u{k}(x: {a}):\n" + _indent(u, "    "))
+        defs.append(f"async def au(x: {a}):\n" + _indent("\n".join(ASYNC_USES), "    "))
+        for k, u in enumerate(GEN_USES):
+            defs.append(f"def gu{k}(x: {a}):\n" + _indent(u, "    "))
+        defs.append(f"def star(*x: {a}, **kw: {a}):\n    if x: pass\n    if kw: pass\n    y = x[0]; z = kw['a']; later_fn(*x, **kw)")
+        defs.append(f"class KU:\n    x: {a}\n    def m(self):\n        if self.x: pass\n        y = self.x.attr; z = self.x(); w = self.x[0]\n        for i in self.x: pass")
+        return defs
+
+    for a in SAFE_ANN:
+        emit("annotated-parameter-uses", True, lambda a=a: use_defs(a))
+    # (4) every ill-typed / odd expression in every expression position
+    exprs = list(dict.fromkeys(ILL_EXPRS + INT_LITS + STR_LITS + OTHER_LITS + ["g1", "g2", "Base", "Base()", "Later", "later_fn", "Color.RED", "undef1", "os", "len",
+                                                                               "super()", "lambda: 0", "(i for i in g2)", "[i for i in g2]", "{1: 2}", "{1, 2}"]))
+    def expr_defs(chunk):
+        defs = []
+        for j, e in enumerate(chunk):
+            for k, u in enumerate(USES):
+                defs.append(f"def e{j}_{k}(x=0):\n" + _indent(u.replace("x", f"({e})") if " x" in u or "x " in u or "(x" in u or "x)" in u or "{x" in u else u, "    "))
+        return defs
+
+    for i in range(0, len(exprs), 6):
+        emit("expression-positions", False, lambda chunk=exprs[i: i + 6]: expr_defs(chunk))
+    # (5) every ill-typed statement in several enclosing constructs
+    wraps = ["{s}", "for i in g2:\n    {s}", "while g1:\n    {s}\nelse:\n    {s}", "try:\n    {s}\nexcept Exception:\n    {s}\nfinally:\n    {s}",
+             "with Ctx() as c:\n    {s}", "if g1:\n    {s}\nelif g2:\n    {s}\nelse:\n    {s}", "class Local:\n    {s}", "def inner():\n    {s}",
+             "match g1:\n    case 1:\n        {s}\n    case _:\n        {s}", "try:\n    {s}\nexcept* ValueError:\n    pass"]
+    def stmt_defs(chunk):
+        defs = []
+        for j, st in enumerate(chunk):
+            st = st.replace("{v}", "a")
+            for k, w in enumerate(wraps):
+                body = "\n".join(_indent(st, l[: len(l) - len(l.lstrip())]) if "{s}" in l else l for l in w.split("\n"))
+                defs.append(f"def s{j}_{k}(self, p=None, q: P.kwargs = None, r: Any = None):\n" + _indent(body, "    "))
+                if k == 0:
+                    defs.append(f"async def as{j}(self, p=None, q=None, r=None):\n" + _indent(body, "    "))
+        return defs
+
+    for i in range(0, len(ILL_STMTS), 8):
+        emit("statement-contexts", False, lambda chunk=ILL_STMTS[i: i + 8]: stmt_defs(chunk))
+    return out
